@@ -16,6 +16,7 @@ WORKER_LIBC_OK = {"memcpy", "memset", "memcmp", "memmove", "malloc", "calloc", "
                   "lzma_alone_encoder", "lzma_alone_decoder", "lzma_code", "lzma_end", "lzma_memusage",
                   "LZ4_compress_default", "LZ4_compress_HC", "LZ4_decompress_safe",
                   "ZSTD_compressCCtx", "ZSTD_decompress", "ZSTD_isError", "ZSTD_compressBound"}
+CODEC_STRUCTS = ("struct.z_stream_s", "struct.lzma_", "struct.ZSTD_", "struct.LZ4_", "struct.bz_stream", "struct.lzo")
 ENV_CALLS = {"time", "gettimeofday", "clock_gettime", "rand", "random", "srand", "srandom", "getpid", "getppid", "getenv",
              "secure_getenv", "localtime", "localtime_r", "gmtime", "gmtime_r", "strftime", "setlocale", "umask", "getcwd",
              "readdir", "readdir64", "scandir", "sched_getaffinity", "sysconf", "get_nprocs", "gethostname", "uname",
@@ -72,6 +73,12 @@ def rule_a_confinement(chk, prog):
                     for (s_, n_) in p.fields():
                         if s_.startswith(MAIN_STRUCTS):
                             bad = (i, "touches %s.%s" % (s_.replace("struct.", ""), n_))
+                if i.op == "store" and p.is_inst and p.op == "getelementptr" and p.fields():
+                    s0 = p.fields()[0][0]
+                    if not (s0.startswith("struct.sqfs_block_t") or s0.startswith(CODEC_STRUCTS)):
+                        bad = (i, "stores into %s.%s, state that outlives the work item (per-worker context or compressor "
+                                  "object): what a worker does with a block then depends on the blocks it happened to get before"
+                               % (s0.replace("struct.", ""), p.fields()[0][1]))
                 if i.op == "store" and p.is_const and p.gname:
                     g = f.unit.globals.get(p.gname)
                     if g is not None and not g.get("const"):
